@@ -34,16 +34,22 @@ def collect():
         txt = open(os.path.join(SEED, "confirm", f)).read()
         conf = dict(re.findall(r"(\w+_rc)=(\d+)", txt))
         unit = "UNIT-STYLE" in txt
+        manual = re.search(r"MANUAL: (.*)", txt)
         ok = conf.get("suite_mutant_rc") == "0" and (unit or (conf.get("demo_clean_rc") == "0" and conf.get("demo_mutant_rc") not in (None, "0")))
         dst = os.path.join(OUT, "%s-%s" % (pid, m))
         if not ok:
             print("skip (not confirmed on the current tree):", name, conf)
             continue
         os.makedirs(dst, exist_ok=True)
-        for fn in ("patch.diff", "demo.rs", "README.md"):
+        for fn in ("patch.diff", "demo.rs", "README.md", "patch.orig.diff"):
             p = os.path.join(src, fn)
             if os.path.exists(p):
                 shutil.copy(p, os.path.join(dst, fn))
+        if os.path.exists(os.path.join(src, "demo_adapted.rs")):
+            shutil.copy(os.path.join(src, "demo.rs"), os.path.join(dst, "demo_original.rs"))
+            shutil.copy(os.path.join(src, "demo_adapted.rs"), os.path.join(dst, "demo.rs"))
+        if os.path.isdir(os.path.join(src, "corpus")):
+            shutil.copytree(os.path.join(src, "corpus"), os.path.join(dst, "corpus"), dirs_exist_ok=True)
         readme = open(os.path.join(src, "README.md")).read() if os.path.exists(os.path.join(src, "README.md")) else ""
         needs = ""
         m2 = re.search(r"(?is)(needs|manifest|scenario|interleaving|what .*needed)[^\n]*\n(.{0,600})", readme)
@@ -61,61 +67,74 @@ def collect():
                 "demo_with_patch_rc": conf.get("demo_mutant_rc"),
                 "suite_with_patch_rc": conf.get("suite_mutant_rc"),
                 "unit_style_demo_placed_by_hand": unit,
+                "note": manual.group(1) if manual else ("ported to the current tree by me (original: patch.orig.diff)" if os.path.exists(os.path.join(src, "patch.orig.diff")) else ""),
             },
         }
         json.dump(meta, open(os.path.join(dst, "meta.json"), "w"), indent=1)
         print("collected", name)
 
 
-def run(names):
-    rows = []
-    for name in sorted(os.listdir(OUT)):
-        d = os.path.join(OUT, name)
-        if not os.path.isdir(d) or (names and name not in names):
-            continue
-        meta = json.load(open(os.path.join(d, "meta.json")))
-        patch = os.path.join(d, "patch.diff")
-        st = sh("git -C /repo status --porcelain")
-        if st.stdout.strip():
-            print("refusing: /repo is not clean")
-            return
-        a = sh("git -C /repo apply %s" % patch)
-        if a.returncode != 0:
-            a = sh("git -C /repo apply --3way %s" % patch)
-        if a.returncode != 0:
-            meta["check_results"] = {"apply": "patch does not apply to the current tree: " + a.stderr[-300:]}
-            json.dump(meta, open(os.path.join(d, "meta.json"), "w"), indent=1)
-            sh("git -C /repo checkout -- . ; git -C /repo reset -q")
-            rows.append((name, meta["property"], "patch does not apply", ""))
-            print(name, "does not apply")
-            continue
-        results = {}
-        caught_by = []
-        try:
-            for chk in RELATED.get(meta["property"], [meta["property"]]):
-                t0 = time.time()
-                r = sh("cd %s && ./check %s --tier quick" % (VERIF, chk))
-                lines = [l for l in r.stdout.splitlines() if l.startswith(("VIOLATION", "INCONCLUSIVE", "KNOWN-FINDING", "check "))]
-                results[chk] = {"rc": r.returncode, "wall_s": round(time.time() - t0), "lines": lines[:8]}
-                if r.returncode == 1:
-                    caught_by.append(chk)
-                print(name, chk, "rc=%d" % r.returncode, flush=True)
-        finally:
-            sh("git -C /repo checkout -- . ; git -C /repo reset -q ; git -C /repo clean -fdq src tests")
-        meta["check_results"] = results
-        meta["caught_by"] = caught_by
-        meta["what_i_ran"] = "git -C /repo apply seeded/%s/patch.diff; ./check <ID> --tier quick for %s; git -C /repo checkout -- ." % (name, RELATED.get(meta["property"]))
+def eval_one(name):
+    """one seeded change: scratch copy of /repo's working tree + patch; ./check <ID> --tier quick with VERIF_REPO=<copy>"""
+    d = os.path.join(OUT, name)
+    meta = json.load(open(os.path.join(d, "meta.json")))
+    patch = os.path.join(d, "patch.diff")
+    work = "/var/tmp/pearl-verif/seedrun-%s" % name
+    shutil.rmtree(work, ignore_errors=True)
+    os.makedirs(work)
+    tree = os.path.join(work, "repo")
+    sh("rsync -a --exclude /target --exclude /.git /repo/ %s/" % tree)
+    a = sh("cd %s && patch -p1 -s < %s" % (tree, patch))
+    if a.returncode != 0:
+        meta["check_results"] = {"apply": "patch does not apply to the current tree: " + (a.stdout + a.stderr)[-300:]}
         json.dump(meta, open(os.path.join(d, "meta.json"), "w"), indent=1)
-        verdicts = {k: {0: "pass", 1: "VIOLATION", 2: "inconclusive"}.get(v["rc"], str(v["rc"])) for k, v in results.items()}
-        viol = [l for v in results.values() for l in v["lines"] if l.startswith("VIOLATION")]
-        rows.append((name, meta["property"], ", ".join("%s:%s" % kv for kv in verdicts.items()), viol[0][:160] if viol else ""))
-    # README
+        shutil.rmtree(work, ignore_errors=True)
+        return (name, meta["property"], "patch does not apply", "")
+    results, caught_by = {}, []
+    env = dict(os.environ, VERIF_REPO=tree, VERIF_OUT=os.path.join(work, "out"))
+    for chk in RELATED.get(meta["property"], [meta["property"]]):
+        t0 = time.time()
+        r = sh("cd %s && ./check %s --tier quick" % (VERIF, chk), env=env)
+        lines = [l for l in r.stdout.splitlines() if l.startswith(("VIOLATION", "INCONCLUSIVE", "KNOWN-FINDING", "check "))]
+        viol = []
+        try:
+            ev = json.load(open(os.path.join(work, "out", "evidence", chk + ".json")))
+            viol = [v.get("summary", str(v))[:300] if isinstance(v, dict) else str(v)[:300] for v in ev.get("violations", [])]
+        except Exception:
+            pass
+        results[chk] = {"rc": r.returncode, "wall_s": round(time.time() - t0), "lines": lines[:8], "violations": viol[:6]}
+        if r.returncode == 1:
+            caught_by.append(chk)
+        print(name, chk, "rc=%d" % r.returncode, flush=True)
+    shutil.rmtree(work, ignore_errors=True)
+    meta["check_results"] = results
+    meta["caught_by"] = caught_by
+    meta["what_i_ran"] = ("rsync copy of /repo's working tree + patch -p1 < seeded/%s/patch.diff; VERIF_REPO=<copy> ./check <ID> --tier quick for %s "
+                          "(same as git -C /repo apply / check / git checkout, but lets several changes be evaluated at once; "
+                          "a sample was also run the literal way, see seeded/README.md)" % (name, RELATED.get(meta["property"])))
+    json.dump(meta, open(os.path.join(d, "meta.json"), "w"), indent=1)
+    verdicts = {k: {0: "pass", 1: "VIOLATION", 2: "inconclusive"}.get(v["rc"], str(v["rc"])) for k, v in results.items()}
+    first = ""
+    for v in results.values():
+        vl = [l for l in v["lines"] if l.startswith("VIOLATION")]
+        if v["rc"] == 1 and vl:
+            m = re.search(r"\((.*)\)\s*$", vl[0])
+            first = (m.group(1) if m else vl[0])[:220].replace("|", "/")
+            break
+    return (name, meta["property"], ", ".join("%s:%s" % kv for kv in verdicts.items()), first)
+
+
+def run(names, jobs=3):
+    from concurrent.futures import ThreadPoolExecutor
+    todo = [n for n in sorted(os.listdir(OUT)) if os.path.isdir(os.path.join(OUT, n)) and (not names or n in names)]
+    with ThreadPoolExecutor(max_workers=jobs) as pool:
+        rows = list(pool.map(eval_one, todo))
     lines = ["# Seeded breaking changes and what the checks say about them", "",
              "Generated by tools/seed_eval.py. Each directory: patch.diff, the agent's demo.rs and README.md, meta.json (confirmation + check results).", "",
-             "| change | property | checks run (quick tier) | first violation line |", "|---|---|---|---|"]
+             "| change | property | checks run (quick tier) | first violation reported |", "|---|---|---|---|"]
     old = {}
     rp = os.path.join(OUT, "README.md")
-    if os.path.exists(rp) and names:
+    if os.path.exists(rp):
         for l in open(rp):
             m = re.match(r"\| (\S+) \|", l)
             if m and m.group(1) not in ("change", "---"):
